@@ -87,10 +87,10 @@ func TestVerifC06Instances(t *testing.T) {
 			}
 			return out
 		}
-		conflicts, contended, midLoads, stale, loadsWithInner := 0, 0, 0, 0, 0
+		conflicts, contended, midLoads, stale, loadsWithInner, unpublished, recoveriesWithInner := 0, 0, 0, 0, 0, 0, 0
 		// runRound runs one round of instance idx and judges its outcome.
-		var runRound func(idx int, inlineCtx bool, y func(p *simProc, op *simOp)) error
-		runRound = func(idx int, inlineCtx bool, y func(p *simProc, op *simOp)) error {
+		var runRound func(idx int, inlineCtx bool, y func(p *simProc, op *simOp), faults ...simFault) error
+		runRound = func(idx int, inlineCtx bool, y func(p *simProc, op *simOp), faults ...simFault) error {
 			in := insts[idx]
 			t0 := len(s.w.trace)
 			nack := len(s.acks)
@@ -99,9 +99,9 @@ func TestVerifC06Instances(t *testing.T) {
 			}
 			var res *simRoundResult
 			if inlineCtx {
-				res = s.roundCtx(simInlineCtx(context.Background()), in, nil)
+				res = s.roundCtx(simInlineCtx(context.Background()), in, faults)
 			} else {
-				res = s.round(in, nil)
+				res = s.round(in, faults)
 				s.w.yield = nil
 			}
 			conflict := false
@@ -126,6 +126,13 @@ func TestVerifC06Instances(t *testing.T) {
 						return fmt.Errorf("instance %d lost the compare-and-swap but acknowledged entry %d (index %d)", idx, a.Entry.ID, a.Index)
 					}
 				}
+			}
+			if res.Err == nil && len(faults) > 0 && len(res.Fired) > 0 {
+				// the injected failure of the checkpoint upload: the round is lost, the sequencer goes on (lock store ahead of
+				// the published checkpoint until its next round)
+				unpublished++
+				descf("  instance %d goes on after a failed checkpoint upload (lock store at %d)", idx, len(s.model))
+				return nil
 			}
 			if res.Err != nil {
 				in.close() // a fatal error stops the sequencer for good
@@ -207,9 +214,16 @@ func TestVerifC06Instances(t *testing.T) {
 					}
 				}
 			}
-			if err := runRound(outer, false, y); err != nil {
+			var outerFaults []simFault
+			ckFail := rapid.IntRange(0, 5).Draw(t, "checkpointUploadFails") == 3
+			if ckFail {
+				outerFaults = []simFault{{Class: "checkpoint", Ordinal: 0, Mode: simErrNoApply}}
+			}
+			before := unpublished
+			if err := runRound(outer, false, y, outerFaults...); err != nil {
 				t.Fatalf("C06 violated: %v\nschedule:\n  %s", err, strings.Join(desc, "\n  "))
 			}
+			ahead := unpublished > before // the lock store is ahead of the published checkpoint now
 			if innerErr != nil {
 				t.Fatalf("C06 violated: %v\nschedule:\n  %s", innerErr, strings.Join(desc, "\n  "))
 			}
@@ -219,7 +233,11 @@ func TestVerifC06Instances(t *testing.T) {
 			if v := s.w.violations(); len(v) > 0 {
 				t.Fatalf("C06 violated: %s\nschedule:\n  %s", v[0], strings.Join(desc, "\n  "))
 			}
-			switch rapid.IntRange(0, 5).Draw(t, "extraLoad") {
+			extra := rapid.IntRange(0, 5).Draw(t, "extraLoad")
+			if ahead && extra != 0 {
+				extra = 1 // a newcomer recovers the unpublished round while the running instance sequences on
+			}
+			switch extra {
 			case 0:
 				load("later")
 			case 1, 2:
@@ -230,6 +248,9 @@ func TestVerifC06Instances(t *testing.T) {
 					break
 				}
 				runner := al[rapid.IntRange(0, len(al)-1).Draw(t, "runner")]
+				if ahead && !insts[outer].stopped {
+					runner = outer
+				}
 				at := rapid.IntRange(1, 6).Draw(t, "loadYield")
 				n := rapid.IntRange(1, 4).Draw(t, "runnerN")
 				p0 := s.newProc()
@@ -245,6 +266,9 @@ func TestVerifC06Instances(t *testing.T) {
 						s.w.clock += 3
 						descf("  at start-up read %d of a new instance (%s %s): instance %d runs a whole round", count, op.Kind, op.Key, runner)
 						loadsWithInner++
+						if ahead {
+							recoveriesWithInner++
+						}
 						if err := runRound(runner, true, nil); err != nil {
 							innerErr = err
 						}
@@ -286,6 +310,12 @@ func TestVerifC06Instances(t *testing.T) {
 		}
 		if loadsWithInner > 0 {
 			cls = append(cls, "round-inside-startup")
+		}
+		if unpublished > 0 {
+			cls = append(cls, "checkpoint-upload-failed-instance-goes-on")
+		}
+		if recoveriesWithInner > 0 {
+			cls = append(cls, "round-inside-startup-recovery")
 		}
 		rec.Add("cas-conflicts", int64(conflicts))
 		rec.Add("commits", int64(len(s.commits)))
